@@ -3,7 +3,7 @@ import glob
 
 import vlib
 
-MODEL_VO = ['Readers/Pir.vo']
+MODEL_VO = ['Readers/Pir.vo', 'Readers/OperExpr.vo']
 
 
 def harness():
@@ -20,3 +20,9 @@ def harness_vg():
 
 def driver():
     return vlib.ocaml_driver('readers', MODEL_VO)
+
+
+def harness_oper():
+    """parse_operation_expr sits in an anonymous namespace of src/mmcif.cpp: h_oper.cpp includes that file textually."""
+    srcs = [p for p in sorted(glob.glob(vlib.REPO + '/src/*.cpp')) if not p.endswith('/mmcif.cpp')]
+    return vlib.build_exe('h_oper', [vlib.ROOT + '/harness/h_oper.cpp'] + srcs, flags=vlib.SAN_FLAGS + ['-I' + vlib.REPO])
